@@ -182,6 +182,9 @@ func c10Work(c *mc.Ctx) {
 	if c.Owns(0) {
 		c10CompatAppend(c)
 	}
+	if c.Owns(1) {
+		c10OverlappingRows(c)
+	}
 	for _, it := range c10Types() {
 		for _, cfg := range []ref.Cfg{{}, {ProtoArrays: true}} {
 			if ref.ClassOf(cfg, it.T, "") == ref.CR {
@@ -594,6 +597,89 @@ func holdSlicePointees(rv reflect.Value, viaSlice bool, path string, out *[]held
 		}
 		for i := 0; i < full.Len(); i++ {
 			holdSlicePointees(full.Index(i), true, fmt.Sprintf("%s[%d]", path, i), out)
+		}
+	}
+}
+
+// c10OverlappingRows: slices of numeric slices decoded into a target whose old rows SHARE memory
+// (windows onto one flat buffer at a stride shorter than the rows, or the same row stored several
+// times) and have capacity to spare: every decoded row must hold exactly its encoded elements - rows
+// must not be decoded on top of one another - whatever the old rows were.
+func c10OverlappingRows(c *mc.Ctx) {
+	if !c.Begin(`{"set":"overlapping-rows"}`) {
+		return
+	}
+	c.AddEvals(-1)
+	c.Dim("overlapping-rows")
+	type holder struct {
+		I [][]int     `plenc:"1"`
+		F [][]float64 `plenc:"2"`
+		B [][]bool    `plenc:"3"`
+		U [][]uint16  `plenc:"4"`
+		Z int         `plenc:"9"`
+	}
+	for oldRows := 1; oldRows <= 4; oldRows++ {
+		for _, stride := range []int{0, 1, 2} { // 0: the same row every time
+			for newRows := 0; newRows <= 4; newRows++ {
+				for newLen := 0; newLen <= 3; newLen++ {
+					c.AddEvals(1)
+					c.Count("states", 1)
+					c.AddNonTrivial(1)
+					sig := "overlapping-rows|"
+					c.Guard(sig, func() {
+						flatI, flatF, flatB, flatU := make([]int, 64), make([]float64, 64), make([]bool, 64), make([]uint16, 64)
+						for i := range flatI {
+							flatI[i], flatF[i], flatB[i], flatU[i] = 900+i, 900.5+float64(i), true, uint16(900+i)
+						}
+						var tgt holder
+						for r := 0; r < oldRows; r++ {
+							o := r * stride
+							tgt.I, tgt.F = append(tgt.I, flatI[o:o+3:o+8]), append(tgt.F, flatF[o:o+3:o+8])
+							tgt.B, tgt.U = append(tgt.B, flatB[o:o+3:o+8]), append(tgt.U, flatU[o:o+3:o+8])
+						}
+						want := holder{Z: 3}
+						for r := 0; r < newRows; r++ {
+							var ri []int
+							var rf []float64
+							var rb []bool
+							var ru []uint16
+							for k := 0; k < (newLen+r)%4; k++ {
+								ri, rf, rb, ru = append(ri, 10*r+k+1), append(rf, float64(10*r+k)+0.25), append(rb, (r+k)%2 == 0), append(ru, uint16(10*r+k+1))
+							}
+							want.I, want.F, want.B, want.U = append(want.I, ri), append(want.F, rf), append(want.B, rb), append(want.U, ru)
+						}
+						p := NewPlenc(ref.Cfg{})
+						data, err := p.Marshal(nil, &want)
+						if err != nil {
+							c.Violation(sig+"marshal-error", err.Error())
+							return
+						}
+						if err := p.Unmarshal(data, &tgt); err != nil {
+							c.Violation(sig+"unmarshal-error", err.Error())
+							return
+						}
+						c.Ops(2)
+						if newRows == 0 {
+							// nothing in the data for the four fields: the prior rows stay (absent keeps its prior value)
+							c.Outcome("ok")
+							return
+						}
+						if bad := badSliceHeader(reflect.ValueOf(&tgt).Elem(), ""); bad != "" {
+							c.Violation(sig+"decoded-slice-header-corrupt", bad)
+							return
+						}
+						norm := func(h holder) string {
+							// an empty row may come back nil or empty
+							return strings.ReplaceAll(canon(reflect.ValueOf(h)), "nil[]", "[]")
+						}
+						if got, w := norm(tgt), norm(want); got != w {
+							c.Violation(sig+"rows-decoded-on-top-of-one-another", fmt.Sprintf("%d old rows at stride %d, %d new rows: got %s want %s", oldRows, stride, newRows, trunc200(got), trunc200(w)))
+							return
+						}
+						c.Outcome("ok")
+					})
+				}
+			}
 		}
 	}
 }
